@@ -39,6 +39,8 @@ def scope(tier, seed):
                 'EDIT': 'histories query / edit the same object (every single added edge, toggled label, or a '
                         'replaced labelling function with extra non-state keys) / query on the 82 '
                         'representatives x 46 formulas',
+                'NAMES': 'representatives x 6 state-naming schemes (incomparable frozensets, mixed types, enum members, '
+                         'strings incl. empty, tuples with None, falsy values) x 46 formulas',
                 'MED': '40 structures with 5-7 states (rings with chords, chains into loops, two components, trees '
                        'with back edges, seed-generated) x size<=1, a stride of size 2, depth-3 towers, 4-5-ary and/or',
                 'TOWER': 'all 2401 depth-4 towers of unary CTL operators over p, and 4-5-ary and/or, on the 82 '
@@ -78,6 +80,8 @@ def plan(tier, seed):
         sh.append(['S0', lo, hi])
     for i in range(40):
         sh.append(['MED', i])
+    for lo, hi in chunks(82, 4):
+        sh.append(['NAMES', lo, hi])
     for lo, hi in chunks(82, 4):
         sh.append(['TOWER', lo, hi])
     if tier == 'quick':
@@ -172,6 +176,35 @@ def run_shard(shard, tier, seed, acc):
                 Kl = lib.to_kripke(k)
                 for f in full:
                     check_one(k, Kl, f, acc)
+        return
+    if kind == 'NAMES':
+        import enum
+        Col = enum.Enum('Col', 'red green blue')
+        schemes = {'frozensets': lambda i: frozenset('xyz'[i]), 'mixed': lambda i: (0, 'mid', ('end', 1))[i],
+                   'enum': lambda i: list(Col)[i], 'strings': lambda i: ('s', '', 'S ')[i],
+                   'none-tuples': lambda i: (None, i), 'falsy': lambda i: (0, '', ())[i]}
+        forms = _forms_le(1, spaces.LEAVES2)
+        from pyModelChecking import Kripke
+        for k in (spaces.kripke_reps(1) + spaces.kripke_reps(2))[shard[1]:shard[2]] + spaces.kripke_reps(3)[shard[1] * 11::450]:
+            for sname in sorted(schemes):
+                names = [schemes[sname](i) for i in range(k.n)]
+                Kl = Kripke(S=names, R=[(names[i], names[j]) for i in range(k.n) for j in k.succ[i]],
+                            L=dict((names[i], set(k.lab[i])) for i in range(k.n)))
+                inv = dict((repr(x), i) for i, x in enumerate(names))
+                for f in forms:
+                    ref = ctl_sat(k, f)
+                    r = call(lib.CTL.modelcheck, Kl, lib.build(f, lib.CTL))
+                    acc.ev(1, 1 if 0 < len(ref) < k.n else 0)
+                    got = None
+                    if r[0] == 'ok':
+                        try:
+                            got = frozenset(inv[repr(x)] for x in r[1])
+                        except Exception:
+                            got = None
+                    if got != ref:
+                        acc.violation('wrong-answer', kcase(k, f, names=sname), sorted(ref),
+                                      r[1:] if r[0] != 'ok' else sorted(map(repr, r[1])))
+        acc.sample({'states': 'frozensets / mixed / enum members / strings / tuples with None / falsy values'})
         return
     if kind == 'MED':
         # 5-7 states: every formula of size<=1, a stride of size 2, depth-3 towers, wide and/or
@@ -328,6 +361,15 @@ def replay(art):
                 call(lib.CTL.modelcheck, Kl, lib.build(f, lib.CTL))
         return {'violates': lib.snapshot_kripke(Kl) != snap}
     f = spaces.from_jsonable(case['f'])
+    if case.get('names'):
+        from ..runner import Acc
+        acc = Acc()
+        for lo in range(0, 82, 4):
+            reps = (spaces.kripke_reps(1) + spaces.kripke_reps(2))[lo:lo + 4] + spaces.kripke_reps(3)[lo * 11::450]
+            if any(x.key() == k.key() for x in reps):
+                run_shard(['NAMES', lo, lo + 4], 'quick', 0, acc)
+                break
+        return {'violates': acc.d['nviol'] > 0, 'detail': acc.d['violations'][:1]}
     if art['kind'] == 'wrong-answer-after-edit':
         edit = tuple(case['edit'])
         k2 = [x for e, x in spaces.k_edits(k) if list(e) == list(edit)][0]
